@@ -29,6 +29,16 @@ THEOREMS["C09"] = [("Flurry.Props.C09", [
     "Flurry.C09.all_public_guarded", "Flurry.C09.checkedUsesWith_sound", "Flurry.C09.checkedRow_sound",
     "Flurry.C09.checked_sound", "Flurry.C09.no_foreign_use"])]
 
+THEOREMS["C06"] = [("Flurry.Props.C06", [
+    "Flurry.C06.treeify_inv", "Flurry.C06.insert_preserves", "Flurry.C06.remove_preserves",
+    "Flurry.C06.untreeify_sizes", "Flurry.C06.set_value_preserves", "Flurry.C06.tree_find_iff_mem",
+    "Flurry.C06.tree_find_none_iff", "Flurry.C06.lookup_cost", "Flurry.C06.height_log",
+    "Flurry.C06.validator_iff", "Flurry.C06.inserts_preserve"])]
+THEOREMS["C19"] = [("Flurry.Props.C19", [
+    "Flurry.C19.deserialize_total", "Flurry.C19.set_policy_no_failure", "Flurry.C19.deserializeFrom_lastWins",
+    "Flurry.C19.roundtrip", "Flurry.C19.roundtrip_current", "Flurry.C19.lookup_insertAll",
+    "Flurry.C19.par_extend_any_order"])]
+
 TIERS = {
     "quick": {"seq_cases": 400, "seq_ops": 60, "search_mult": 6},
     "thorough": {"seq_cases": 20000, "seq_ops": 160, "search_mult": 3},
@@ -252,7 +262,68 @@ def check_C09(R):
                   "public_rows_not_exercised_at_runtime": sorted("%s::%s(%s)" % k for k in public_nt - exercised)})
 
 
+def check_C06(R):
+    R.trusted = TRUSTED_COMMON + ["the tree model Flurry/RB.lean is a hand transcription of src/node.rs; it is compared with the implementation by exact tree dumps (shape and colours) after every operation"]
+    R.assumptions = ["key types whose Eq/Ord/Hash are consistent and do not panic", "cost = number of Eq and Ord calls on keys during one get(); the budget checked on the implementation is ceil(4*log2(n+1))+2"]
+    translator_step(R)
+    lean_step(R, "C06")
+    if harness_step(R):
+        seq_step(R, "C06")
+
+
+def check_C19(R):
+    R.trusted = TRUSTED_COMMON + ["serde_json and rayon as drivers of the feature-gated impls", "the duplicate-key policy extraction of extract/src/serde_policy.rs"]
+    R.assumptions = ["the rayon half relies on C01 (parallel inserts are equivalent to some sequential order); the theorem par_extend_any_order is about every such order",
+                     "well-formed input = a syntactically valid document of the right shape; type errors yield Err, which is allowed"]
+    translator_step(R)
+    lean_step(R, "C19")
+    if not harness_step(R):
+        return
+    t = TIERS[R.tier]
+    n = 300 if R.tier == "quick" else 20000
+    rounds = [(R.seed, n)]
+    total = {"docs": 0, "docs_with_repeated_keys": 0, "roundtrips": 0, "par_runs": 0}
+    samples, diffs, searched = [], [], False
+    base = os.path.join(C.BUILD, "run", "bulk-%d" % os.getpid())
+    os.makedirs(os.path.dirname(base), exist_ok=True)
+    while rounds:
+        seed, cases = rounds.pop(0)
+        rc, out = C.sh([C.HARNESS_BIN, "bulk", "--seed", str(seed), "--cases", str(cases), "--ops", base + ".ops", "--impl", base + ".impl"], timeout=3600)
+        try:
+            rep = json.loads([l for l in out.splitlines() if l.startswith("{")][-1])
+        except Exception:
+            R.add_broken("harness `bulk` run failed: " + out[-300:])
+            break
+        for k in total:
+            total[k] += rep[k]
+        samples = samples or rep["samples"]
+        for f in rep["failures"]:
+            R.add_failing(f, {"suite": "bulk", "how": "%s bulk --seed %d --cases %d" % (C.HARNESS_BIN, seed, cases), "failure": f})
+        if os.path.exists(C.MODEL_BIN):
+            rc, mout = C.sh("%s < %s.ops" % (C.MODEL_BIN, base), timeout=600)
+            lo = open(base + ".ops").read().splitlines()
+            la = open(base + ".impl").read().splitlines()
+            lb = [l for l in mout.splitlines() if not l.startswith("WARNING")]
+            for o, a, b in zip(lo, la, lb):
+                if a != b:
+                    diffs.append((o, a, b))
+        if (diffs or R.broken) and not R.failing and not searched:
+            searched = True
+            rounds += [(R.seed * 7919 + j, n) for j in range(1, 4)]
+    for o, a, b in diffs[:5]:
+        R.add_broken("correspondence serde-visitor-model-vs-implementation: `%s`: implementation `%s`, model `%s`" % (o[:120], a[:120], b[:120]))
+    for f in (base + ".ops", base + ".impl"):
+        if os.path.exists(f):
+            os.remove(f)
+    R.cov.update({"evaluations": total["docs"] * 2 + total["roundtrips"] * 2 + total["par_runs"] * 3,
+                  "distinct_nontrivial": total["docs_with_repeated_keys"],
+                  "rule": "JSON documents over 1-12 keys with repetitions (maps and sets) through serde_json::from_str under catch_unwind, compared with the Lean visitor-loop model and with std's last-wins semantics; round trips of the same contents; par_extend/from_par_iter on pools of 1-8 threads against the key-set/value-membership predicate; non-trivial = the document repeats a key",
+                  "samples": samples[:3], **total})
+
+
 CHECKS = {
+    "C06": check_C06,
+    "C19": check_C19,
     "C09": check_C09,
     "C10": check_C10,
     "C14": check_C14,
